@@ -36,6 +36,13 @@ CATALOGUE = [
     '(declare-const a Real)\n(assert (> a 1.5))\n(assert (= a (/ 3 4)))\n(assert (< 10.25 a))\n',
     '(set-logic QF_NIRA)\n(declare-const i Int)\n(assert (> (* i i) 2))\n',
     '(declare-const x Int)\n(assert (= x x x))\n(assert (= x 0))\n(assert (= 0 x))\n',
+    # legal shadowing: the binding term mentions a symbol the same let binds
+    '(declare-const x Int)\n(declare-const y Int)\n(assert (let ((x y) (y x)) (< x y)))\n',
+    '(declare-const x Int)\n(assert (let ((x (+ x 1))) (< x 0)))\n',
+    '(declare-const p Bool)\n(assert (let ((p (not p))) (or p (let ((q p) (p q)) q))))\n',
+    # arguments mentioning formal parameter names
+    '(declare-const k Int)\n(define-fun f ((a Int) (b Int)) Int (- (* a 2) b))\n(define-fun g ((a Int) (b Int)) Int (f b a))\n(assert (> (g k 3) (f (+ k 1) k)))\n',
+    '(declare-const a Int)\n(define-fun f ((a Int)) Int (+ a 1))\n(assert (> (f (f a)) (f (* a 2))))\n',
 ]
 
 
@@ -173,6 +180,66 @@ class Explorer:
         return out
 
 
+def single_successors(ex, exprs, i, mname):
+    """Successors of ``exprs`` through proposals of one mutator at one BFS
+    node index."""
+    ns = ex.ns
+    try:
+        ns.smtlib.collect_information(exprs)
+    except Exception:  # noqa
+        return []
+    nodes = list(ns.nodes.bfs(exprs))
+    if i >= len(nodes):
+        return []
+    node = nodes[i]
+    m = dict(ex.muts)[mname]
+    n = len(nodes)
+    text = ''
+    if hasattr(m, 'filter'):
+        ok, fine = ex.guarded('filter', mname, n, lambda: m.filter(node),
+                              text)
+        if not fine or not ok:
+            return []
+    props = []
+    if hasattr(m, 'mutations'):
+        p, fine = ex.guarded('mutations', mname, n,
+                             lambda: take(m.mutations(node), 6), text)
+        props += p or []
+    if hasattr(m, 'global_mutations'):
+        p, fine = ex.guarded('global_mutations', mname, n,
+                             lambda: take(m.global_mutations(node, exprs), 6),
+                             text)
+        props += p or []
+    out = []
+    for simp in props:
+        t, fine = ex.guarded(
+            'apply_simp', mname, n, lambda: ns.nodes.reduplicate(
+                ns.mutator_utils.apply_simp(exprs, simp)), text)
+        if fine and t is not None:
+            out.append(t)
+    return out
+
+
+PUMP_STEPS = 25
+
+
+def pump_chain(ex, exprs, mname, i, t):
+    """Does mutator ``mname`` at node ``i`` keep proposing strictly larger
+    inputs for the input it produced?  Returns the chain of states if it
+    does so PUMP_STEPS times."""
+    ns = ex.ns
+    states = [exprs, t]
+    for _ in range(PUMP_STEPS):
+        cur = states[-1]
+        size = ns.nodes.count_nodes(cur)
+        nxt = [u for u in single_successors(ex, cur, i, mname)
+               if ns.nodes.count_nodes(u) > size]
+        if not nxt:
+            return None
+        states.append(nxt[0])
+    return states
+
+
 def take(it, k):
     out = []
     for x in it:
@@ -190,6 +257,8 @@ def exhaustive_depth2(ex, ns, res, text, origin, cap_states=40):
     res.count('states_expanded')
     seen = {}
     cands = []
+    size0 = ns.nodes.count_nodes(exprs)
+    pumped = set()
     for mname, i, t in succ:
         res.count('edges')
         kt = ex.key(t)
@@ -197,16 +266,34 @@ def exhaustive_depth2(ex, ns, res, text, origin, cap_states=40):
             cands.append(('noop', [(mname, i)], [exprs, t]))
             continue
         seen.setdefault(kt, (mname, i, t))
+        if ns.nodes.count_nodes(t) > size0 and (mname, i) not in pumped:
+            pumped.add((mname, i))
+            res.count('growth_steps_followed')
+            chain = pump_chain(ex, exprs, mname, i, t)
+            if chain:
+                cands.append(('pump', [(mname, i)] * (len(chain) - 1),
+                              chain))
     res.add_set('distinct_states', common.digest(k0))
+    edges = {}  # (key of t, key of t') -> (mutator, node) among depth-1 states
+    back = set()
     for kt, (mname, i, t) in list(seen.items())[:cap_states]:
         res.count('states_expanded')
         res.add_set('distinct_states', common.digest(kt))
         for m2, j, u in ex.successors(t):
             res.count('edges')
-            if ex.key(u) == k0:
+            ku = ex.key(u)
+            if ku == k0 and kt not in back:
+                back.add(kt)
                 cands.append(('2-cycle', [(mname, i), (m2, j)],
                               [exprs, t, u]))
-                break
+            elif ku in seen and ku != kt:
+                edges.setdefault((kt, ku), (m2, j))
+    # 2-cycles between two successors of the seed
+    for (ka, kb), (m1, i1) in edges.items():
+        if ka < kb and (kb, ka) in edges:
+            m2, i2 = edges[(kb, ka)]
+            ta, tb = seen[ka][2], seen[kb][2]
+            cands.append(('2-cycle', [(m1, i1), (m2, i2)], [ta, tb, ta]))
     return cands
 
 
@@ -257,21 +344,28 @@ def confirm(res, base, ns, cand, origin, idx):
     rules = [realrun.rule(f'set:{setfile}', 1, 'member\n', ''),
              realrun.rule('all', 0, 'other\n', '')]
     mnames = sorted({n.split('(')[0] for n, _ in names})
+    mode = ['--replace-by-variable-mode', 'dec'] if any(
+        n.endswith('(dec)') for n, _ in names) else []
     confirmed = False
     for strat in ('hierarchical', 'ddmin'):
         run = realrun.run_ddsmt(
             os.path.join(wd, strat), texts[0], rules,
             opts=['--strategy', strat, '-j', '1', '--timeout', '20',
-                  '--bv', '--fp', '--strings', '--datatypes', '--arithmetic'],
+                  '--bv', '--fp', '--strings', '--datatypes',
+                  '--arithmetic'] + mode,
             launcher={'monitors': ['write']}, timeout=40)
         res.count('confirmation_runs')
         writes = [e for e in run.events if e['ev'] == 'write']
         limit = 10 * len(states) + 50
+        if kind == 'pump':
+            # the chain itself is the evidence (the same mutator enlarged
+            # its own result PUMP_STEPS times); the real tool must be seen
+            # to follow it
+            limit = len(states) - 6
         if len(writes) > limit or (run.timed_out and len(writes) > limit):
             confirmed = True
             res.violation(
-                f'{"noop" if kind == "noop" else "cycle"}:' +
-                '+'.join(mnames),
+                classify(kind, mnames, texts),
                 f'{kind} {names}: the real tool ({strat}) accepted '
                 f'{len(writes)} simplifications on a chain of '
                 f'{len(states)} inputs without stopping', {
@@ -290,6 +384,18 @@ def confirm(res, base, ns, cand, origin, idx):
         res.add_set('unconfirmed_candidates',
                     f'{kind}:' + '+'.join(mnames))
     return confirmed
+
+
+def classify(kind, mnames, texts):
+    """Mechanism key of a confirmed chain."""
+    toks = refreader.lex(texts[0])
+    declared = {toks[i + 2] for i in range(len(toks) - 2)
+                if toks[i] == '(' and toks[i + 1] in (
+                    'declare-const', 'declare-fun', 'define-fun')}
+    if any(f'|{n}|' in declared for n in declared):
+        return 'cycle:simple-and-quoted-form-both-declared'
+    return f'{kind if kind in ("noop", "pump") else "cycle"}:' + \
+        '+'.join(mnames)
 
 
 def bounded_progress_run(res, base, r, idx):
@@ -377,10 +483,19 @@ def shard(args):
             res.add_distinct(common.digest(text))
         # confirmation of candidates on the real tool (dedupe by mechanism)
         done = set()
+        prio = {'pump': 0, 'noop': 1}
+        cands.sort(key=lambda c: prio.get(c[0][0], 2))
+        ncap = args['confirm'] * (4 if args['shard'] == 0 else 1)
         for ci, (cand, origin) in enumerate(cands):
             res.count('cycle_or_noop_candidates')
-            sig = (cand[0], tuple(sorted({n for n, _ in cand[1]})))
-            if sig in done or len(done) >= args['confirm']:
+            names = {n for n, _ in cand[1]}
+            if 'ReplaceByVariable' in names and \
+                    'ReplaceByVariable(dec)' in names:
+                # both modes cannot be active in one run
+                res.count('candidates_impossible_in_one_run')
+                continue
+            sig = (cand[0], tuple(sorted(names)))
+            if sig in done or len(done) >= ncap:
                 continue
             done.add(sig)
             confirm(res, base, ns, cand, origin, ci)
